@@ -315,7 +315,51 @@ def splitter_vocabulary(ctx: Ctx, rep: Report, rid: str = "R09.5", sel=None):
     return vocab_s, need
 
 
-def run(ctx: Ctx, rep: Report, tier: str) -> None:  # noqa: C901
+def version_travels_with_platform(ctx: Ctx, rep: Report, rid: str = "R09.16") -> None:
+    """Platform AND software version select the name tables: in the config-level / generator functions every
+    construction of an object that renders names (a class whose constructor takes `version`) and is given `platform=`
+    is given `version=` as well (or a spread that carries it).  `range_ports(dstports='135', platform='ios',
+    version='15')` rendered `eq msrpc`, a name the version-15 reader refuses."""
+    rep.rule(rid)
+    base = ctx.prog.classes.get("Base")
+    n = 0
+    for g in [x for x in ctx.prog.funcs if x.cls is None and x.module.name.endswith("functions")]:
+        kwname = g.node.args.kwarg.arg if g.node.args.kwarg else None
+        env = {}
+        for x in own_nodes(g.node):
+            if isinstance(x, (ast.Assign, ast.AnnAssign)) and x.value is not None:
+                t = x.targets[0] if isinstance(x, ast.Assign) else x.target
+                if isinstance(t, ast.Name):
+                    env.setdefault(t.id, x.value)
+        for c in [x for x in own_nodes(g.node) if isinstance(x, ast.Call) and isinstance(x.func, ast.Name) and x.func.id in ctx.prog.classes]:
+            cls = ctx.prog.classes[c.func.id]
+            if base is None or base not in cls.mro:
+                continue
+            kws = {k.arg for k in c.keywords if k.arg}
+            if "platform" not in kws:
+                continue
+            n += 1
+            rep.instance()
+            carried = "version" in kws
+            for k in c.keywords:
+                if k.arg is None and isinstance(k.value, ast.Name):
+                    d = env.get(k.value.id)
+                    if k.value.id == kwname:
+                        carried = True
+                    if isinstance(d, ast.Call) and src(d.func) == "dict" and any(kk.arg == "version" for kk in d.keywords):
+                        carried = True
+                    if isinstance(d, ast.Dict) and any(isinstance(kk, ast.Constant) and kk.value == "version" for kk in d.keys):
+                        carried = True
+            if carried:
+                rep.ok(f"{g.qualname}: {snippet(c, 40)}", "platform and version are handed over together", nontrivial=False, where=where(g, c))
+            else:
+                rep.violation(g.qualname, snippet(c, 60), f"the {c.func.id} is built for the caller's platform but with the default software version: names are chosen from the table of another version than the one asked for, and the reader for that version refuses them (`eq msrpc` for ios 15)", where(g, c), inp="range_ports(dstports='135', platform='ios', version='15')")
+    if n == 0:
+        rep.note(f"{rid} no construction with platform= in the module functions - not judged")
+
+
+def run(ctx: Ctx, rep: Report, tier: str) -> None:
+    version_travels_with_platform(ctx, rep)  # noqa: C901
     ref = _reference()
     folder = ctx.folder
     platforms = folder.const("helpers", "PLATFORMS")
